@@ -63,6 +63,13 @@ def generate(ck):
     for n in range(1, L):
         for seq in itertools.product(OPS, repeat=n):
             descs.append({"cls": "twophase", "cfg": 0, "seq": list(seq)})
+    # "grid B, same length" instantiated as a grid that differs from A by a few parts per million
+    # (a re-computed or re-scaled time axis): it is a different grid and must be simulated as such
+    for cls in ("ideal", "single"):
+        for n in range(2, 4):
+            for seq in itertools.product(("simA", "simN", "rf", "interp"), repeat=n):
+                if "simN" in seq and "simA" in seq:
+                    descs.append({"cls": cls, "cfg": 0, "seq": list(seq)})
     # extension outside the property's alphabet
     ext_ops = ("simS", "simA", "simC", "rf", "interp")
     for n in range(2, L):
@@ -129,6 +136,9 @@ def _apply(obj, op, cfg):
             warnings.simplefilter("ignore")
             if op in ("simA", "simB", "simC"):
                 obj.simulate(_grid(c[op[-1]]).copy())
+                return ("ok", None)
+            if op == "simN":
+                obj.simulate(_grid(c["A"]) * (1 + 4e-6))
                 return ("ok", None)
             if op == "simS":
                 t = _grid(c["A"]).copy()
